@@ -246,7 +246,7 @@ def big_value_cases():
     range, dict views, deque) where the schema expects something else — whatever a message does with long values"""
     import collections
     out = []
-    for n in (101, 1001):
+    for n in (101, 301):
         bigs = [list(range(n)), tuple(range(n)), set(range(n)), frozenset(range(n)), {i: i for i in range(n)}, "x" * n, b"y" * n,
                 bytearray(b"z" * n), range(n), {i: 0 for i in range(n)}.keys(), collections.deque(range(n)), {str(i): [i] for i in range(n)}]
         for b in bigs:
@@ -254,6 +254,38 @@ def big_value_cases():
                             (schema.dict({"k": schema.int}), lambda v: {"k": v}), (schema.list([schema.none, schema.int]), lambda v: [None, v]),
                             (schema.any(schema.int, schema.none), lambda v: v), (schema.dict({"a": schema.int}), lambda v: v)):
                 out.append(ValCase(s, wrap(b), "big-value"))
+    return out
+
+
+def line_break_and_odd_value_cases():
+    """strings that END in a line break (`$` matches before it, `\Z` does not), contain one, or a NUL, against every str
+    constraint; UUIDs whose variant is not RFC 4122 (`.version` is None: nil, max, NCS, Microsoft) against uuid4 schemas;
+    sets whose members cannot be ordered against each other — at the root and nested"""
+    import uuid
+    out = []
+    strs = ["12345\n", "\n", "abc\n", "ab\nc", "abc\r", "abc\r\n", "a\x00", "\x00", "abc\x0b", "abc\x85", "abc\u2028", "abc "]
+    for mk in (lambda: schema.str.alphabet("0123456789"), lambda: schema.str.alphabet("abc"), lambda: schema.str.alphabet(""),
+               lambda: schema.str("abc"), lambda: schema.str.len(3), lambda: schema.str.len(..., 3), lambda: schema.str.contains("abc"),
+               lambda: schema.str.regex(r"^abc$"), lambda: schema.str.regex(r"^\d+$"), lambda: schema.str.alphabet("abc\n"),
+               lambda: schema.str.alphabet("abc").len(3)):
+        try:
+            s = mk()
+        except Exception:  # noqa: BLE001
+            continue
+        for v in strs:
+            out.append(ValCase(s, v, "line-break"))
+            out.append(ValCase(schema.dict({"k": s, optional("o"): schema.list(s)}), {"k": v, "o": ["abc", v]}, "line-break"))
+    odd_uuids = [uuid.UUID(int=0), uuid.UUID(int=2 ** 128 - 1), uuid.UUID("12345678-1234-4234-1234-123456789abc"),
+                 uuid.UUID("12345678-1234-4234-c234-123456789abc"), uuid.UUID("12345678-1234-1234-e234-123456789abc"),
+                 uuid.UUID("12345678-1234-5234-8234-123456789abc"), uuid.UUID("12345678-1234-4234-8234-123456789abc")]
+    for u in odd_uuids:
+        for s, v in ((schema.uuid4, u), (schema.uuid4(odd_uuids[-1]), u), (schema.dict({"ids": schema.list(schema.uuid4)}), {"ids": [odd_uuids[-1], u]}),
+                     (schema.any(schema.uuid4, schema.none), u), (schema.list([schema.uuid4, ...]), [u])):
+            out.append(ValCase(s, v, "odd-uuid"))
+    for st in ({1, "a"}, frozenset({None, "x"}), {2, (3, 4)}, {1.5, "b", None}, {b"x", "x"}, {True, "t"}, {("a",), 1}, set(), {1}):
+        for s, v in ((schema.int, st), (schema.list(schema.int), st), (schema.dict({"k": schema.str}), {"k": st}), (schema.list([schema.int, schema.str]), [1, st]),
+                     (schema.any(schema.int, schema.str), st), (schema.dict({"a": schema.any(schema.list, schema.none)}), {"a": st})):
+            out.append(ValCase(s, v, "mixed-set"))
     return out
 
 
